@@ -38,7 +38,8 @@ def gen(rng, tier, i):
                         p_handler_fault=0.0, p_reject=0.45,
                         reject_kinds=['false', 'zero', 'empty', 'text',
                                       'dict', 'list', 'emptylist', 'raise',
-                                      'true'],
+                                      'true', 'one', 'onefloat', 'zerofloat',
+                                      'num', 'emptydict'],
                         p_ws_fault=0.0, p_overlap_polls=0.0,
                         p_pong_misbehave=0.0, p_jsonp=0.25, span=3.0,
                         p_no_monitor=0.3)
